@@ -162,7 +162,7 @@ Qed.
 Lemma run_op_coh fuel cf s o : coherent cf s ->
   snd (run_op fuel cf s o) = op_pure fuel cf o /\ coherent cf (fst (run_op fuel cf s o)).
 Proof.
-  intros H. destruct o as [text want|text want|text want|text wantm|]; cbn [Instance.run_op Instance.op_pure].
+  intros H. destruct o as [text want|text want|text want|text want|text wantm|]; cbn [Instance.run_op Instance.op_pure].
   - destruct (want []) eqn:W.
     + destruct (pull_stream_coh fuel cf want (open_stream cf s) (init_ls text 0) (coherent_open _ _ H)
                   (start_ist_open cf s)) as (A & B).
@@ -182,6 +182,13 @@ Proof.
       destruct (pull_stream_coh fuel (lex_private_cf cf) want p (init_ls text 0) Hp St) as (A & B).
       destruct (pull_stream fuel (lex_private_cf cf) want p (init_ls text 0)) as [p' [acc e]].
       cbn in *. rewrite <- A. split; [reflexivity|]. intros i. apply (coherent_open _ _ H i).
+  - set (p := mkInst (fun _ : nat => cell0 Sc CB) (ind (open_stream cf s))).
+    assert (Hp : coherent (lex_all_cf cf) p) by (intros i; apply coherent1_cell0).
+    assert (St : start_ist (lex_all_cf cf) p = reset_state).
+    { unfold start_ist, p, open_stream; cbn. destruct (postlex cf); reflexivity. }
+    destruct (pull_stream_coh fuel (lex_all_cf cf) want p (init_ls text 0) Hp St) as (A & B).
+    destruct (pull_stream fuel (lex_all_cf cf) want p (init_ls text 0)) as [p' [acc e]].
+    cbn in *. rewrite <- A. split; [reflexivity|]. intros i. apply (coherent_open _ _ H i).
   - destruct (want []) eqn:W.
     + destruct (pull_stream_coh fuel cf want (open_stream cf s) (init_ls text 0) (coherent_open _ _ H)
                   (start_ist_open cf s)) as (A & B).
